@@ -502,6 +502,137 @@ def received_bytes_trigger(role, rng):
         pair.close()
 
 
+def compressed_crossing(role, comp, initiator, seed):
+    """A re-exchange (started by the subject, by the peer, or by the subject's packet threshold) with compression
+    none / zlib / zlib@openssh.com after authentication, channel data of the peer in flight behind a gate, a user
+    message parked on each side, and fresh traffic both ways afterwards: both compressors and both decompressors
+    have to be in step with the new keys."""
+    import random
+
+    from pv.props.c10 import EngineLog
+    from tests._loop import LoopSocket
+
+    rng = random.Random(seed)
+    gate, other = L.gate_socket(), LoopSocket()
+    gate.link(other)
+    socks = (other, gate) if role == "server" else (gate, other)
+    pair = L.Pair(role, "Transport", True, socks=socks, compression=comp)
+    sub, peer = pair.subject, pair.peer
+    out = {"role": role, "compression": comp or "none", "initiator": initiator}
+    words = [rng.randbytes(rng.randrange(3, 10)) for _ in range(30)]
+
+    def text(n):
+        return b"".join(rng.choice(words) for _ in range(n))
+
+    try:
+        if (sub.local_compression, sub.remote_compression) != (comp or "none", comp or "none"):
+            raise InfraError("compression %s not negotiated: %s/%s" % (comp, sub.local_compression, sub.remote_compression))
+        ch = pair.tc.open_session(timeout=30)
+        sch = pair.ts.accept(30)
+        if sch is None:
+            raise InfraError("accept timed out")
+        sub_ch, peer_ch = (sch, ch) if role == "server" else (ch, sch)
+        for c in (sub_ch, peer_ch):
+            c.settimeout(20)
+
+        def expect(chan, data, what):
+            got = b""
+            try:
+                while len(got) < len(data):
+                    x = chan.recv(65536)
+                    if not x:
+                        break
+                    got += x
+            except Exception:
+                pass
+            if got != data:
+                out.setdefault("lost", []).append(what)
+
+        warm_a, warm_b = text(300), text(300)              # both zlib streams get a history
+        sub_ch.sendall(warm_a)
+        expect(peer_ch, warm_a, "warm-up sub->peer")
+        peer_ch.sendall(warm_b)
+        expect(sub_ch, warm_b, "warm-up peer->sub")
+        logs = {"sub": EngineLog(sub), "peer": EngineLog(peer)}
+        tap = L.Tap(sub)
+        sub.clear_to_send_timeout = peer.clear_to_send_timeout = 5.0
+        if not pair.barrier():
+            raise InfraError("session not usable before the re-exchange")
+        gate.close_gate()
+        inflight, sub_parked, peer_parked = text(200), text(120), text(120)
+        peer_ch.sendall(inflight)
+        mark = len(tap.tx)
+        if initiator == "sub":
+            sub._send_kex_init()
+        elif initiator == "peer":
+            peer._send_kex_init()
+        else:
+            pk = sub.packetizer
+            pk.REKEY_PACKETS = pk._Packetizer__sent_packets + 1
+            sub_ch.sendall(b"trigger")
+            pk.REKEY_PACKETS = 2 ** 29
+            L.wait_until(lambda: any(r[0] == 20 for r in tap.tx[mark:]) or not sub.is_alive(), 30,
+                         "the threshold to start the re-exchange")
+        excs = []
+
+        def sender(chan, data):
+            try:
+                chan.sendall(data)
+            except Exception as e:
+                excs.append(repr(e))
+
+        ths = [threading.Thread(target=sender, args=(sub_ch, sub_parked), daemon=True),
+               threading.Thread(target=sender, args=(peer_ch, peer_parked), daemon=True)]
+        for t in ths:
+            t.start()
+        gate.gate.set()
+
+        def settled():
+            return (not sub.is_alive() or not peer.is_alive()) or (
+                not sub.in_kex and not peer.in_kex and sub.clear_to_send.is_set() and peer.clear_to_send.is_set()
+                and any(r[0] == 21 for r in tap.tx[mark:]))
+
+        t0 = time.time()
+        while not settled() and time.time() - t0 < 30:
+            time.sleep(0.01)
+        for t in ths:
+            t.join(15)
+        out["completed"] = bool(sub.is_active() and peer.is_active() and settled()
+                                and any(r[0] == 21 for r in tap.tx[mark:]))
+        types = [r[0] for r in tap.tx[mark:]]
+        i20 = types.index(20) if 20 in types else len(types)
+        window = []
+        for t in types[i20 + 1:]:
+            if t == 21:
+                break
+            window.append(t)
+        out["window"] = window
+        if out["completed"]:
+            extra = b"trigger" if initiator == "threshold" else b""
+            expect(sub_ch, inflight + peer_parked, "in-flight and parked peer->sub")
+            expect(peer_ch, extra + sub_parked, "parked sub->peer")
+            post_a, post_b = text(150), text(150)
+            try:
+                sub_ch.sendall(post_a)
+                peer_ch.sendall(post_b)
+            except Exception as e:
+                excs.append(repr(e))
+            expect(peer_ch, post_a, "after the exchange sub->peer")
+            expect(sub_ch, post_b, "after the exchange peer->sub")
+        out["sender_exc"] = excs
+        for name, t in (("sub", sub), ("peer", peer)):
+            e = L.root_exc(t.saved_exception) if t.saved_exception is not None else None
+            out[name + "_exc"] = repr(e)
+            out[name + "_site"] = exc_site(e) if e is not None else "-"
+            lg = logs[name]
+            out[name + "_engines"] = {"newkeys_in": lg.ops.count("i"), "inflater_installs": lg.installs_in,
+                                      "newkeys_out": lg.ops.count("o"), "deflater_installs": lg.installs_out}
+        out["alive"] = bool(sub.is_active() and peer.is_active())
+        return out
+    finally:
+        pair.close()
+
+
 def run(ctx):
     L.quiet_logging()
     L.stub_gss()
@@ -510,7 +641,9 @@ def run(ctx):
                 "distinct = (role, kind, parked sender); non-trivial = the kind has a handler that answers. Plus: a "
                 "user-thread shutdown_write()/sendall()/close() made while a re-exchange is held open, with a "
                 "WINDOW_ADJUST or EOF for the same channel (handlers that take Channel.lock) in flight ahead of the "
-                "peer's kex packets, both roles")
+                "peer's kex packets, both roles; and exchanges started by the subject, the peer or the packet threshold "
+                "with compression none / zlib / zlib@openssh.com, data in flight, a parked sender on each side and fresh "
+                "traffic afterwards")
     ctx.trust("pv/lib_runloop.py gate socket / Tap", "the model's message kinds are classified by reply mechanism; "
               "the classification itself is what the differential run checks")
     ctx.assume("the peer of the re-exchange is a stock paramiko transport (it aborts on a non-kex message while it "
@@ -519,6 +652,8 @@ def run(ctx):
     ctx.extra["send_user_message_sites_under_channel_lock"] = [x for x in sites if x["under_lock"]]
     ctx.build(extra_modules=["Driver.C11"])
 
+    comp_jobs = [(role, comp, ini) for role in ("server", "client") for comp in (None, "zlib", "zlib@openssh.com")
+                 for ini in ("sub", "peer", "threshold")]
     held_jobs = [(role, api, inflight) for role in ("server", "client")
                  for api in ("shutdown_write", "send", "close") for inflight in ("window", "eof")]
     jobs = []
@@ -527,7 +662,7 @@ def run(ctx):
             quiet = kind in ("data", "extdata", "window", "eof", "chanreq", "globreq")
             jobs.append((role, kind, quiet))
     njobs = len(jobs)
-    jobs = jobs + [("held",) + j for j in held_jobs]
+    jobs = jobs + [("held",) + j for j in held_jobs] + [("comp",) + j + (ctx.rng.randrange(1 << 30),) for j in comp_jobs]
     results = [None] * len(jobs)
     errors = []
     nxt = [0]
@@ -541,7 +676,12 @@ def run(ctx):
             if i >= len(jobs):
                 return
             try:
-                results[i] = held_rekey(*jobs[i][1:]) if jobs[i][0] == "held" else crossing(*jobs[i])
+                if jobs[i][0] == "held":
+                    results[i] = held_rekey(*jobs[i][1:])
+                elif jobs[i][0] == "comp":
+                    results[i] = compressed_crossing(*jobs[i][1:])
+                else:
+                    results[i] = crossing(*jobs[i])
             except Exception as e:
                 errors.append((jobs[i], e))
 
@@ -557,8 +697,31 @@ def run(ctx):
             raise e
         ctx.broken.append({"kind": "harness-exception", "what": repr(job), "detail": repr(e)[:300]})
 
-    held_results = results[njobs:]
+    comp_results = results[njobs + len(held_jobs):]
+    held_results = results[njobs:njobs + len(held_jobs)]
     jobs, results = jobs[:njobs], results[:njobs]
+    # ---------------- compression none / zlib / zlib@openssh.com across an exchange with traffic queued behind it
+    for (role, comp, ini), o in zip(comp_jobs, comp_results):
+        if o is None:
+            continue
+        ctx.case(("compressed", role, comp, ini), comp is not None)
+        ctx.dist("compressed:%s:%s" % (comp or "none", ini))
+        ctx.sample(o, limit=22)
+        tag = "%s:%s-initiated" % (comp or "none", ini)
+        offending = [t for t in o["window"] if t >= 50]
+        if offending:
+            ctx.fail("reply-during-kex:data:compressed:" + tag, o, "types %r between KEXINIT and NEWKEYS" % offending)
+        if not o["completed"] or not o["alive"]:
+            ctx.fail("re-exchange-fails:compressed:" + tag, o, "subject %s (%s) peer %s (%s)"
+                     % (o["sub_exc"], o["sub_site"], o["peer_exc"], o["peer_site"]))
+        elif o.get("lost") or o["sender_exc"]:
+            ctx.fail("queued-traffic-lost:compressed:" + tag, o, "not delivered intact: %r %r" % (o.get("lost"), o["sender_exc"]))
+        if comp is not None and o["completed"]:
+            for name in ("sub", "peer"):
+                e = o[name + "_engines"]
+                if e["inflater_installs"] != e["newkeys_in"] or e["deflater_installs"] != e["newkeys_out"]:
+                    ctx.fail("compression-engine-not-renewed-at-newkeys:" + (comp or "none"), dict(o, side=name),
+                             "%s: %r" % (name, e))
     # ---------------- user-thread calls during a held re-exchange, with a lock-taking peer message in flight
     hreqs = []
     for (role, api, inflight), o in zip(held_jobs, held_results):
@@ -613,6 +776,31 @@ def run(ctx):
             model_in = any(t >= 50 for t in win)
             if model_in != bool(offending):
                 ctx.disagree("send gate: user data inside the kex window", o, {"wire": wire}, {"window": o["window"]})
+
+    # ---------------- a sender parked between its is_set() test and its write, while we start the exchange ourselves
+    klock = bool(gate_facts.get("clear_sites")) and all(u for _f, _l, u in gate_facts.get("clear_sites") or [])
+    code = (1 if gate_facts.get("rechecks_under_lock") else 0) + (0 if klock else 2)
+    prep = ctx.driver("C11", ["gate %d 1 u u u k k k k u u k k k k k k u u" % code])
+    for role in ("server", "client"):
+        o = L.parked_sender_vs_self_rekey(role)
+        ctx.case(("parked-sender", role), True)
+        ctx.dist("parked-sender:" + role)
+        ctx.sample(o, limit=18)
+        offending = [t for t in o["window"] if t >= 50]
+        if offending:
+            ctx.fail("user-message-inside-kex-window:sender-parked-before-write", o,
+                     "types %r between KEXINIT and NEWKEYS; peer: %s" % (offending, o["peer_exc"]))
+        elif not o["completed"] or o["user_exc"] != "-":
+            ctx.fail("re-exchange-fails:sender-parked-before-write", o, "subject %s peer %s user %s"
+                     % (o["sub_exc"], o["peer_exc"], o["user_exc"]))
+        elif not o["delivered"]:
+            ctx.fail("queued-user-message-lost:sender-parked-before-write", o, "the parked packet did not arrive")
+        if prep is not None:
+            wire = [int(x) for x in prep[0].split(",")] if prep[0] != "-" else []
+            win = wire[wire.index(20) + 1: wire.index(21)] if 20 in wire and 21 in wire else []
+            if any(t >= 50 for t in win) != bool(offending):
+                ctx.disagree("send gate: parked sender against a self-initiated exchange", o, {"wire": wire},
+                             {"window": o["window"], "before_kexinit": o["before_kexinit"]})
 
     # ---------------- request raised by the received-bytes threshold, limits scaled 1:1, data in flight behind it
     for role in ("server", "client"):
